@@ -130,6 +130,8 @@ def cfg_case(draw):
     cfg = {'description': 'configured module'}
     errors = []
     if draw(st.integers(0, 3)) == 0:
+        cs['optional'] = draw(st.sampled_from([['op0'], ['oc0'], ['op0', 'oc0']]))
+    if draw(st.integers(0, 3)) == 0:
         cfg['group'] = 'grp'
     if draw(st.integers(0, 3)) == 0:
         cfg['visibility'] = draw(st.sampled_from(['expert', 'advanced', 2]))
@@ -161,7 +163,8 @@ def cfg_case(draw):
                 v = draw(specs.valid_value(T2, True))
             else:
                 label, v = draw(st.sampled_from([c for c in specs.catalogue(T2, 'drv') if c[1] is not None and c[1] == c[1]]))
-            entry['value'] = v
+            # the start value is given as 'value', or (Param(default=...)) as a default which is applied but not written
+            entry['default' if how == 'param-value' and not p.get('needscfg') and draw(st.integers(0, 3)) == 0 else 'value'] = v
         elif p.get('needscfg'):
             errors.append({'kind': 'needscfg', 'needle': p['name']})
         items = list(entry.items()) + list(props.items())
@@ -174,7 +177,7 @@ def cfg_case(draw):
         p = draw(st.sampled_from(cs['params']))
         ent = cfg.get(p['name'])
         if kind == 'unknown-name':
-            name = draw(st.sampled_from(['nix', 'p9', 'valeu']))
+            name = draw(st.sampled_from(['nix', 'p9', 'valeu'] + 2 * cs.get('optional', [])))
             cfg[name] = {'$order': ['value'], 'value': 1}
             errors.append({'kind': kind, 'needle': name})
         elif kind == 'unknown-prop':
@@ -299,7 +302,7 @@ def analyse(case):
         ent = cfg.get(p['name'])
         if not isinstance(ent, dict):
             continue
-        props = {k: v for k, v in ent.items() if k not in ('$order', 'value')}
+        props = {k: v for k, v in ent.items() if k not in ('$order', 'value', 'default')}
         if any(e['kind'] in ('inverted', 'unknown-prop', 'bad-prop') and e['needle'] in (p['name'], 'zzprop') for e in errors):
             T2 = p['T']
         else:
@@ -310,9 +313,12 @@ def analyse(case):
                 errors.append({'kind': 'inconsistent-override', 'needle': p['name']})
                 T2 = p['T']
         info = {'T2': T2, 'props': props}
-        if 'value' in ent:
-            info['value'] = ent['value']
-            info['vclass'], info['why'] = value_class(T2, ent['value'])
+        if 'value' in ent or 'default' in ent:
+            info['value'] = ent['value'] if 'value' in ent else ent['default']
+            info['as_default'] = 'value' not in ent
+            info['vclass'], info['why'] = value_class(T2, info['value'])
+            if 'value' in ent and 'default' in ent:
+                info['vclass2'] = value_class(T2, ent['default'])[0]
         plan[p['name']] = info
     return plan, errors
 
@@ -324,14 +330,17 @@ def check_cfg(ctx, case):
         return
     ctx.ev()
     plan, errors = analyse(case)
-    must_fail = bool(errors) or any(i.get('vclass') == 'wrongtype' for i in plan.values())
-    may_fail = any(i.get('vclass') == 'range' for i in plan.values())
+    must_fail = bool(errors) or any('wrongtype' in (i.get('vclass'), i.get('vclass2')) for i in plan.values())
+    may_fail = any('range' in (i.get('vclass'), i.get('vclass2')) for i in plan.values())
     nvalprops = sum(1 for i in plan.values() if 'value' in i and i['props'])
     if nvalprops or len(errors) >= 2:
         ctx.nt((json.dumps(cs, sort_keys=True, default=repr), json.dumps(cfg, sort_keys=True, default=repr)))
     ctx.label(f'errors:{len(errors)}', f'expect:{"fail" if must_fail else "either" if may_fail else "ok"}')
     for e in errors:
-        ctx.label(f'inject:{e["kind"]}')
+        ctx.label(f'inject:{e["kind"]}' + (':optional-not-implemented' if e['needle'] in cs.get('optional', ()) else ''))
+    for i in plan.values():
+        if i.get('as_default'):
+            ctx.label(f'start-value-as-default:{i["vclass"]}')
     ctx.sample({'class': cs, 'cfg': cfg, 'injected': errors}, every=199)
     cls = classgen.build_class(cs, 'G0')
     kit = Kit({'m0': dict(real_cfg(cfg), cls=cls)})
@@ -408,7 +417,12 @@ def check_cfg(ctx, case):
         if 'value' not in info:
             continue
         writes = [i for i, c in enumerate(calls) if c[0] == 'write' and c[1] == name]
-        if p.get('write'):
+        if info.get('as_default'):
+            if writes:     # a configured default is a start value of the cache only
+                ctx.finding('startup-write-of-default', case, f'{name}: {calls!r}'[:300])
+            else:
+                ctx.ok('default-not-written')
+        elif p.get('write'):
             if info['vclass'] == 'range':
                 continue    # the write wrapper refuses out-of-range values at start-up (logged): either
             if len(writes) != 1:
@@ -423,7 +437,7 @@ def check_cfg(ctx, case):
                     ctx.ok('startup-write-once-before-poll')
         elif writes:
             ctx.finding('startup-write-without-method', case, repr(calls)[:300])
-    unconfigured = [c for c in calls if c[0] == 'write' and 'value' not in plan.get(c[1], {})]
+    unconfigured = [c for c in calls if c[0] == 'write' and ('value' not in plan.get(c[1], {}) or plan[c[1]].get('as_default'))]
     if unconfigured:
         ctx.finding('startup-write-of-unconfigured-parameter', case, repr(unconfigured)[:300])
     # later range checks use the overridden limits
